@@ -345,6 +345,14 @@ def sol_cases(tier):
                 out.append(("wlasso_unit", dict(name="WeightedLasso", kw=dict(alpha=a, fit_intercept=fi, weights=[1.0] * p, **cd)), base, xid, "reg", 1e-10))
                 out.append(("enet_ratio1", dict(name="ElasticNet", kw=dict(alpha=a, fit_intercept=fi, l1_ratio=1.0, **cd)), base, xid, "reg", 1e-10))
                 out.append(("grouplasso_singletons", dict(name="GroupLasso", kw=dict(alpha=a, fit_intercept=fi, groups=1, tol=1e-10, max_iter=500)), base, xid, "reg", 1e-10))
+                if not fi or True:
+                    # the same reductions under the positivity option (the special case is the positive Lasso)
+                    pbase = dict(name="Lasso", kw=dict(alpha=a, fit_intercept=fi, positive=True, **cd))
+                    out.append(("wlasso_unit+", dict(name="WeightedLasso", kw=dict(alpha=a, fit_intercept=fi, weights=[1.0] * p, positive=True, **cd)), pbase, xid, "reg+", 1e-10))
+                    out.append(("enet_ratio1+", dict(name="ElasticNet", kw=dict(alpha=a, fit_intercept=fi, l1_ratio=1.0, positive=True, **cd)), pbase, xid, "reg+", 1e-10))
+                    out.append(("grouplasso_singletons+", dict(name="GroupLasso", kw=dict(alpha=a, fit_intercept=fi, groups=1, positive=True, tol=1e-10, max_iter=500)), pbase, xid, "reg+", 1e-10))
+                    out.append(("estimator_vs_GLE+", dict(name="GLE", kw=dict(datafit=dict(name="Quadratic"), penalty=dict(name="L1", alpha=a, positive=True),
+                                                          solver=dict(name="AndersonCD", kw=dict(fit_intercept=fi, **cd)))), pbase, xid, "reg+", 0.0))
                 out.append(("mcp_gamma_inf", dict(name="MCPRegression", kw=dict(alpha=a, fit_intercept=fi, gamma=2.0 ** 20, **cd)), base, xid, "reg", 1e-4))
                 out.append(("multitask_onetask", dict(name="MultiTaskLasso", kw=dict(alpha=a, fit_intercept=fi, **cd)), base, xid, "reg1", 1e-10))
                 out.append(("estimator_vs_GLE", dict(name="GLE", kw=dict(datafit=dict(name="Quadratic"), penalty=dict(name="L1", alpha=a, positive=False),
@@ -389,7 +397,8 @@ def exec_solution(case):
             out.append(("estimator_differs_from_equivalent_GLE", dict(coef=cg.tolist(), intercept=ig), dict(coef=cs.tolist(), intercept=is_)))
         return out, cg
     fi = bool(spe["kw"].get("fit_intercept", True))
-    prob = dict(datafit=dict(name="Quadratic"), penalty=dict(name="L1", alpha=spe["kw"]["alpha"], positive=False), X=X, y=y, fit_intercept=fi)
+    prob = dict(datafit=dict(name="Quadratic"), penalty=dict(name="L1", alpha=spe["kw"]["alpha"], positive=bool(spe["kw"].get("positive", False))), X=X, y=y,
+                fit_intercept=fi)
     wg = np.append(cg, ig) if fi else cg
     ws = np.append(cs, is_) if fi else cs
     if tol <= 1e-9:
@@ -421,7 +430,9 @@ def run(task, ctx):
             continue
         X = designs[xid]
         ts = R.targets("clf" if tk == "clf" else "reg", X, ctx.tier)
-        for tname, y in (ts[-1:] if ctx.tier == "quick" else ts):
+        if tk == "reg+":
+            ts = [(t, -v) for t, v in ts] + ts[-1:]          # targets for which the sign constraint is active
+        for tname, y in (ts[-1:] if ctx.tier == "quick" and tk != "reg+" else ts[:2] if ctx.tier == "quick" else ts):
             case = dict(op="solution", name=name, gen=gen, spe=spe, xid=xid, tk=tk, tol=tol, X=X.tolist(), y=y.tolist())
             v, c = exec_solution(case)
             ctx.count("solution_pairs")
